@@ -7,6 +7,8 @@ import Cntgs.AllocProofs
 import Cntgs.World
 import Cntgs.WorldProofs
 import Cntgs.RefIter
+import Cntgs.ElemProofs
+import Cntgs.VectorProofs
 namespace Cntgs.C17
 
 /-- a throwing allocation changes nothing in the ledger -/
@@ -395,5 +397,29 @@ theorem element_copy_assign_fault (ew : EWorld) (ps : List Param) (a b : Nat) (e
               refine ⟨⟨{ eb with ptr := p1 }, by simp [EWorld.setE], rfl, rfl, h3, h4⟩, ?_, rfl, h2, he⟩
               intro k hk
               simp [EWorld.setE, hk]
+
+
+/-- one failing element operation: whatever the operation and whatever the state (any history before it), the elements
+    afterwards represent exactly what they represented before — no value lost, none duplicated, each live element still in
+    a block of its own (the statement of `EInv.step` for the throwing case) -/
+theorem element_failed_step (ps : List Param) (hl : ListOK ps) (ew : EWorld) (A : Nat → Option AElem) (h : EInv ps ew.elems A)
+    (op : EOp) (hpre : op.Pre ps ew A) (hprev : ew.w.threw = false) (hthrow : (op.apply ps ew).w.threw = true) :
+    EInv ps (op.apply ps ew).elems A := by
+  have := EInv.step ps (storage_pos hl) ew A h op hpre hprev
+  rw [hthrow] at this
+  simpa using this
+
+/-- histories of element operations in which any allocation may throw and the caller goes on: see
+    `C12.history_of_element_operations`; here for the record that `earun` leaves the abstract map unchanged at every
+    throwing step -/
+theorem element_history_with_allocation_failures (ps : List Param) (hl : ListOK ps) (ops : List EOp) (ew : EWorld)
+    (A : Nat → Option AElem) (h0 : ew.w.threw = false) (h : EInv ps ew.elems A) (hv : EValid ps ew A ops) :
+    EInv ps (erun ps ew ops).elems (earun ps ew A ops) :=
+  EInv.history ps (storage_pos hl) ops ew A h0 h hv
+
+theorem earun_failed_step (ps : List Param) (ew : EWorld) (A : Nat → Option AElem) (op : EOp) (ops : List EOp)
+    (hthrow : (op.apply ps ew).w.threw = true) :
+    earun ps ew A (op :: ops) = earun ps { (op.apply ps ew) with w := { (op.apply ps ew).w with threw := false } } A ops := by
+  simp [earun, hthrow]
 
 end Cntgs.C17
